@@ -1348,7 +1348,7 @@ def check_hist(spec, claims=None, driver=None):
     with warnings.catch_warnings():
         warnings.simplefilter("ignore")
         try:
-            if rng.random() < 0.2:    # base outside the exact model: FFT / NUFFT / wavelet / convolution / MRI leaves in a small tree
+            if rng.random() < spec.get("p_opaque", 0.2):    # base outside the exact model: FFT / NUFFT / wavelet / convolution / MRI leaves in a small tree
                 s0, A0 = C1.wrap_opaque(rng, *C1.gen_opaque(rng))
                 if C1.prod(A0.ishape) > 64 or C1.prod(A0.oshape) > 64:
                     s0, A0 = C1.gen_tree(rng, 1, None)
@@ -1396,6 +1396,18 @@ def check_hist(spec, claims=None, driver=None):
                       % (x.dtype, type(y.__cause__ or y).__name__, str(y.__cause__ or y)[:160]), repr(y)[:200], short(ent.exp[j]))
                 return None
             y = np.asarray(y)
+            if y.dtype.kind in "fc" and y.size and not np.all(np.isfinite(y)) and np.all(np.isfinite(x)):
+                # inf / nan out of a finite input: A(0 * x) = 0 * A(x) fails; reported once under a key that names the
+                # leaf classes of the tree and the input dtype, and this (object, input) is not judged further
+                kinds = set(lf[1] for lf in C1.leaves(s0))
+                cause = "nufft" if kinds & {"nufft", "nufftadj", "sense", "convsense", "convimage"} else "+".join(sorted(kinds))
+                dk = {"c": "complex", "f": "real"}.get(x.dtype.kind, "integer")
+                if not any(v["key"].startswith("C02:history:nonfinite-output") for v in viol):
+                    viol.append(dict(key="C02:history:nonfinite-output:%s-input:%s" % (dk, cause),
+                                     what="e%d = %s (%s) returns non-finite values for a finite %s input; history: %s"
+                                     % (ent.idx, ent.label, ent.op, x.dtype, "; ".join(log[-14:])),
+                                     observed=short(y), expected="finite values"))
+                return None
             if not record:
                 return y
             if ent.first[j] is None:
@@ -1421,6 +1433,16 @@ def check_hist(spec, claims=None, driver=None):
             except Exception:
                 return None
             ent = _HEnt(len(ents), op, rec, _hist_spec(rec, ents), _hist_label(rec, ents), xs_, exact, exp)
+            # size of the tree (leaves, with multiplicity): re-used operands make it grow geometrically
+            if rec[0] == "c01":
+                ent.nleaves = sum(1 for _ in C1.leaves(rec[1]))
+            elif rec[0] == "extra":
+                ent.nleaves = 1
+            else:
+                ids = {"add": rec[1:3], "sub": rec[1:3], "mul": rec[1:3], "neg": rec[1:2], "conj": rec[1:2],
+                       "scal": rec[2:3], "rscal": rec[2:3]}.get(rec[0])
+                ids = list(ids) if ids is not None else list(rec[1] if rec[0] in ("addn", "compn") else rec[2])
+                ent.nleaves = sum(ents[i].nleaves for i in ids)
             ents.append(ent)
             log.append("e%d = %s" % (ent.idx, ent.label))
             for j in range(len(xs_)):
@@ -1611,7 +1633,8 @@ def check_hist(spec, claims=None, driver=None):
         # ---- the Lean denotation of (tree, input)
         n_model = 0
         if driver is not None:
-            me = [e for e in ents if e.spec is not None and all(f is not None for f in e.first)]
+            # trees of up to 48 leaves are sent to the model (larger ones are still covered by oracles 1-5)
+            me = [e for e in ents if e.spec is not None and e.nleaves <= 48 and all(f is not None for f in e.first)]
             lines = ["C02 mats %s" % " ".join(C1.rpn(e.spec)) for e in me]
             for e, ln, rep in zip(me, lines, driver(lines)):
                 if rep == "err model-timeout":
@@ -1856,6 +1879,8 @@ def correspond(ctx):
 def shrink(spec):
     """smaller scale / other seeds with the same kind of case; returns the smallest failing spec found"""
     best = spec
+    if "k" not in spec:      # recon cases have no size scale: the case itself is already small
+        return best
     if spec["kind"] == "hist":
         for ne in (2, 3, 5, 8):
             if ne >= spec.get("n_events", 10):
@@ -1917,6 +1942,12 @@ def search(ctx, budget):
             specs += [dict(kind="linop", op=o, k=rng.choice([2, 3, 4]), seed=rng.randrange(1 << 30), dtype="complex128", noncontig=rng.random() < 0.3, real_xy=False) for _ in range(60)]
         for p in focus_px:
             specs += [dict(kind="prox", prox=p, k=rng.choice([2, 3]), seed=rng.randrange(1 << 30), dtype="complex128") for _ in range(60)]
+        if "prog_app_LinearLeastSquares" in names:
+            specs += [dict(kind="lls", k=rng.choice([2, 3]), seed=rng.randrange(1 << 30),
+                           A=["Identity", "Reshape", "Multiply1", "Multiply", "Flip"][j % 5],
+                           solver=["ConjugateGradient", "ADMM", "GradientMethod", "PrimalDualHybridGradient"][(j // 5) % 4]) for j in range(120)]
+        if "prog_mri_app" in names:
+            specs += [dict(kind="recon", app=RECONS[j % len(RECONS)], seed=rng.randrange(1 << 30)) for j in range(100)]
     for spec in specs:
         viol, _, info = run_spec(spec)
         if "skipped" in info:
